@@ -1,5 +1,6 @@
 """Lcdpinfo (CiscoDiscoveryInfo: typed interpretation of the CDP TLVs; decoder sub-check: C19, C01; C05/C06/C07 n/a) configuration for ./check"""
 CONF = {
+    'coq_sample': 10,   # cases re-evaluated inside Coq by vm_compute against the extracted runner's output
     'interesting': ['truncated-prefix-of-valid', 'consistent-cut', 'type-every-value', 'prefix-length-extreme', 'count-extreme', 'option-length-extreme',
                     'value-length-extreme', 'residue-options', 'error-after-add', 'residue-after-error', 'several-addresses', 'power-values',
                     'energywise-inner', 'decode-error', 'malformed', 'seed'],
